@@ -284,16 +284,17 @@ func (w *World) Tail(mode, maxRounds int) int {
 			// an ACTIVE adversary after GST: elected, it proposes and withholds its PRECOMMIT; not elected but
 			// holding an election certificate of an earlier round, it usurps the round the same way
 			in := w.Info()
+			sc.S = 1
 			switch {
 			case in.LeaderStay == in.Byz:
-				sc = Scenario{L: 3, Q1: 3}
+				sc = Scenario{L: 3, Q1: 3, S: 1}
 				counted--
 			case in.ByzElect:
-				sc = Scenario{U: 1, L: 3, Q1: 3}
+				sc = Scenario{U: 1, L: 3, Q1: 3, S: 1}
 			}
 		}
 		if !w.RunRound(sc) {
-			w.RunRound(Scenario{})
+			w.RunRound(Scenario{S: sc.S})
 		}
 		w.silent = false
 		for _, c := range w.Commits[before:] {
